@@ -49,6 +49,7 @@ func main() {
 	write("ProxyCount.lean", genProxyCount())
 	write("Encode.lean", genEncode())
 	write("ProxyFlush.lean", genProxyFlush())
+	write("Sidecar.lean", genSidecar())
 	write("Forwarding.lean", genForwarding())
 	write("ProvisionErr.lean", genProvisionErr())
 	write("UsagePoolSync.lean", genUsagePoolSync())
@@ -588,6 +589,48 @@ func genProxyFlush() string {
 	sb.WriteString("def proxyDelayedFlushCalls : List String := " + leanStrList(fc) + "\n\n")
 	sb.WriteString("/-- the `m.flush` of `delayedFlush` lies between `Lock` and (a deferred or later) `Unlock` -/\n")
 	sb.WriteString("def proxyDelayedFlushUnderLock : Bool := " + strconv.FormatBool(fok) + "\n")
+	sb.WriteString(footer)
+	return sb.String()
+}
+
+// ---------------------------------------------------------------- file_server's precompressed sidecar (C15)
+
+// genSidecar reads off modules/caddyhttp/fileserver/staticfiles.go, FileServer.ServeHTTP: in source order, the
+// call that opens the sidecar (fsrv.openFile(…, compressedFilename, …)) and the call that announces its coding
+// (respHeader.Set("Content-Encoding", …)); the header must come AFTER the open (a failed open falls back to the
+// plain file with whatever the header map holds).
+func genSidecar() string {
+	var sb strings.Builder
+	sb.WriteString(header)
+	_, f := parseFile("modules/caddyhttp/fileserver/staticfiles.go")
+	fd := findFunc(f, "FileServer", "ServeHTTP")
+	var seq []string
+	if fd != nil {
+		ast.Inspect(fd, func(n ast.Node) bool {
+			ce, ok := n.(*ast.CallExpr)
+			if !ok {
+				return true
+			}
+			switch exprText(ce.Fun) {
+			case "fsrv.openFile":
+				if len(ce.Args) >= 2 && exprText(ce.Args[1]) == "compressedFilename" {
+					seq = append(seq, "open sidecar")
+				}
+			case "respHeader.Set":
+				if len(ce.Args) >= 1 {
+					if bl, ok := ce.Args[0].(*ast.BasicLit); ok && bl.Value == `"Content-Encoding"` {
+						seq = append(seq, "set Content-Encoding")
+					}
+				}
+			}
+			return true
+		})
+	}
+	after := len(seq) == 2 && seq[0] == "open sidecar" && seq[1] == "set Content-Encoding"
+	sb.WriteString("/-- staticfiles.go `FileServer.ServeHTTP`: opening the sidecar and announcing its coding, in source order -/\n")
+	sb.WriteString("def fileServerSidecarSteps : List String := " + leanStrList(seq) + "\n\n")
+	sb.WriteString("/-- `Content-Encoding` is set once, after the sidecar has been opened -/\n")
+	sb.WriteString("def fileServerSidecarHeaderAfterOpen : Bool := " + strconv.FormatBool(after) + "\n")
 	sb.WriteString(footer)
 	return sb.String()
 }
